@@ -57,6 +57,9 @@ def workloads(rnd, tier):
         "SELECT DISTINCT s FROM t",
         "SELECT a FROM t UNION SELECT m FROM u",
         "SELECT `t[0].s` AS first FROM dual",
+        # built-ins that digest / encode their argument: nothing may be shared between two calls
+        "SELECT k, HASH(s,'sha256') AS h, HASH(k,'md5') AS hk FROM t",
+        "SELECT k, ASYNC.HASH(s,'sha256') AS h, ENCODE(s,'base64') AS e FROM t",
     ]
     selectors = ["t[%d:0].a" if False else "t.a", "t[each].items", "u[(0:2)].m", "k%d", "t{k%d|string}" if False else "meta.v",
                  "'k%d'.x", "t[0].k%d"]
